@@ -801,7 +801,7 @@ impl Register {
 impl Aml for Register {
     fn to_aml_bytes(&self, sink: &mut dyn AmlSink) {
         sink.byte(REGDESC); /* Register Descriptor */
-        sink.word(0x12); // length
+        sink.word(0x0c); // length: the 12-byte Generic Address Structure that follows
         self.reg.to_aml_bytes(sink);
     }
 }
